@@ -216,3 +216,94 @@ func VerifC05Pair(v *verifrt.T) {
 	}
 	v.Observe("routes", uint64(got))
 }
+
+// deliverRelay merges a payload and returns what Swarm.merge hands back to the gossip
+// library for onward relay (nil when nothing was new).
+func (b *c05broker) deliverRelay(v *verifrt.T, p *event.State) *event.State {
+	var d mesh.GossipData
+	if v.Symbolic() {
+		c05incoming = p
+		d, _ = b.swarm.merge([]byte{1, 2})
+	} else {
+		d, _ = b.swarm.merge(p.Encode()[0])
+	}
+	if d == nil {
+		return nil
+	}
+	if st, ok := d.(*event.State); ok && st != nil {
+		return st
+	}
+	return nil
+}
+
+// VerifC05Relay: three brokers in a line, B - A - C. Clients subscribe / unsubscribe on B;
+// B's broadcasts reach A in order or are lost; whatever A's merge returns as new is relayed
+// to C (that is all C ever hears about B, apart from A's periodic full state). At quiescence
+// C forwards to B exactly when B has a live subscriber - so the delta A passes on must carry
+// everything that was new to A, and re-gossiping must not be needed for it.
+func VerifC05Relay(v *verifrt.T) {
+	c05clock = 1000
+	crdt.Now = func() int64 { return c05clock }
+	a, b, c := c05new(1), c05new(2), c05new(3)
+	ssid := message.Ssid{7, 11, 12}
+	conns := []*event.Subscription{
+		{Peer: 2, Conn: 1, Ssid: ssid, Channel: []byte("a/b/")},
+		{Peer: 2, Conn: 2, Ssid: ssid, Channel: []byte("a/b/")},
+	}
+	live := [2]bool{}
+	next := 0
+	relay := func(p *event.State) {
+		if d := a.deliverRelay(v, p); d != nil {
+			c.deliver(v, d.VerifClone())
+		}
+	}
+	n := v.Bound("rsteps")
+	for i := 0; i < n; i++ {
+		c05clock += 1 + int64(v.U8("dt", i))
+		switch v.Choice(5, "step", i) {
+		case 0:
+			k := v.Choice(2, "conn", i)
+			if !live[k] {
+				live[k] = true
+				b.swarm.Notify(conns[k], true)
+			}
+		case 1:
+			k := v.Choice(2, "conn", i)
+			if live[k] {
+				live[k] = false
+				b.swarm.Notify(conns[k], false)
+			}
+		case 2: // the oldest undelivered broadcast reaches A, which relays what was new
+			if next < len(b.gossip.sent) {
+				relay(b.gossip.sent[next].VerifClone())
+				next++
+			}
+		case 3: // ... is lost
+			if next < len(b.gossip.sent) {
+				next++
+			}
+		case 4: // periodic full state B -> A, relayed likewise
+			relay(b.swarm.state.VerifClone())
+		}
+	}
+	// quiescence: B's full state reaches A (relayed), then A's full state reaches C
+	relay(b.swarm.state.VerifClone())
+	want := live[0] || live[1]
+	// C has heard nothing but A's relayed deltas so far: they alone carry everything
+	if want {
+		v.Assert(c.routes(ssid, 2) == 1, "C05.relay.deltas-alone-establish-the-route")
+	} else {
+		v.Assert(c.routes(ssid, 2) == 0, "C05.relay.deltas-alone-remove-the-route")
+	}
+	c.deliver(v, a.swarm.state.VerifClone())
+	v.Reach("relay-quiescent")
+	for _, x := range []*c05broker{a, c} {
+		got := x.routes(ssid, 2)
+		if want {
+			v.Assert(got == 1, "C05.relay.forwards-to-broker-with-live-subscriber")
+		} else {
+			v.Assert(got == 0, "C05.relay.stops-forwarding-without-subscriber")
+		}
+	}
+	v.Observe("routes", uint64(c.routes(ssid, 2)))
+}
